@@ -179,6 +179,11 @@ class Engine:
             return Num(v)
         if desc == 'bool':
             return BoolV(fresh(name, Bool))
+        if desc == 'flag':
+            # a boolean mode switch: verified separately for True and for False (case split at entry)
+            k = run.path.choice(2)
+            run.choices = getattr(run, 'choices', []) + ['%s=%s' % (name, bool(k))]
+            return BoolV(bool(k))
         if desc == 'arm':
             return ArmV(fresh(name, Arm))
         if desc in ('aseq', 'rseq', 'iseq', 'bseq'):
@@ -192,6 +197,19 @@ class Engine:
             if desc in ('str', 'callable'):
                 st.assume(z3.Not(run_isnone(v.term)))
             return v
+        if desc == 'parallel_result':
+            # a single per-row value (arm or dict) for one row, else the list of per-row values
+            from .lib import PVArr
+            ctx = run.mat_env.get('contexts')
+            isp = run.mat_env.get('is_predict')
+            single = run.branch(mrows(ctx.term) == 1)
+            from .engine import to_bool_term
+            if not single:
+                ek = 'arm' if run.branch(to_bool_term(isp)) else 'dict'
+                return st.alloc(SymListO(fresh(name + '_len', Int), fresh(name + '_elems', PVArr), ek))
+            if run.branch(to_bool_term(isp)):
+                return ArmV(fresh(name, Arm))
+            return st.alloc(MapO(fresh(name + '_keys', ASeq), {'': fresh(name + '_vals', RArr)}, {'': 'real'}))
         if desc == 'partition':
             return TupleV([Num(fresh(name + '_jobs', Int)), SeqV('I', fresh(name + '_counts', ISeq), True),
                            SeqV('I', fresh(name + '_starts', ISeq), True)])
@@ -206,7 +224,12 @@ class Engine:
             return TupleV([seq]) if k == 0 else seq
         if desc == 'list:pv':
             from .lib import PVArr
-            return st.alloc(SymListO(fresh(name + '_len', Int), fresh(name + '_elems', PVArr), None), fresh=False)
+            from .engine import to_bool_term
+            ek = None
+            isp = (getattr(run, 'mat_env', None) or {}).get('is_predict')
+            if isp is not None:
+                ek = 'arm' if run.branch(to_bool_term(isp)) else 'dict'
+            return st.alloc(SymListO(fresh(name + '_len', Int), fresh(name + '_elems', PVArr), ek), fresh=False)
         if desc == 'scaler':
             return st.alloc(Obj('StandardScaler', {'state': OpaqueV(fresh(name, Opaque), 'scaler')}), fresh=False)
         if desc.startswith('str:{'):
@@ -358,6 +381,20 @@ class Engine:
 
     # ---------------------------------------------------------------------------------- construction
     def construct(self, run, cls, args, kwargs):
+        if cls in self.repo.classes and 'NamedTuple' in self.repo.classes[cls].bases:
+            ci = self.repo.classes[cls]
+            fields = {}
+            pos = list(args)
+            for nm, dflt in ci.ann_fields:
+                if pos:
+                    fields[nm] = pos.pop(0)
+                elif nm in kwargs:
+                    fields[nm] = kwargs[nm]
+                elif dflt is not None:
+                    fields[nm] = self.eval_default(run, None, dflt)
+                else:
+                    raise PyRaise('TypeError', 'missing argument ' + nm)
+            return run.st.alloc(Obj(cls, fields))
         if cls in self.repo.classes:
             ref = run.st.alloc(Obj(cls, {}))
             init = self.repo.lookup_method(cls, '__init__')
@@ -383,6 +420,25 @@ class Engine:
                 raise Unsupported('dict(genexp) element')
             return v
         return loops.build_map_from_pairs(run, dom, body, 'line %d' % n.lineno)
+
+    def telescope_hint(self, run):
+        """Name of the local variable holding the chunk boundaries, from the spec of the function being executed."""
+        fr = run.frames[-1]
+        if fr.fi is None:
+            return None
+        sp = self.spec_for(fr.fi.qual, fr.self_cls)
+        nm = getattr(sp, 'telescope', None) if sp is not None else None
+        if nm is None:
+            for f in reversed(run.frames):
+                if f.fi is not None:
+                    sp2 = self.spec_for(f.fi.qual, f.self_cls)
+                    nm = getattr(sp2, 'telescope', None) if sp2 is not None else None
+                    if nm:
+                        fr = f
+                        break
+        if nm and nm in fr.env:
+            return self.lib.as_seq(run, fr.env[nm])
+        return None
 
     def class_decls(self, cls):
         return specmod.class_fields(self.repo, cls)
